@@ -306,7 +306,8 @@ def parse_frames(wire):
         assert i + ln <= n, "truncated payload"
         pl = wire[i:i + ln]
         i += ln
-        if masked:
+        if masked and not (mk[0] == 0 and mk[1] == 0 and mk[2] == 0 and mk[3] == 0):
+            # (zero mask: x ^ 0 == x; skipping the xor keeps symbolic payload bytes out of CrossHair's xor model)
             pl = bytes([pl[j] ^ mk[j % 4] for j in range(len(pl))])
         out.append((bool(b0 & 0x80), (b0 >> 4) & 7, b0 & 0xF, masked, pl, minimal))
     return out
